@@ -67,8 +67,25 @@ let parse_op toks = match toks with
       | "scmp" -> QCompare | "scmpn" -> QCompareN (nat n) | "scmpi" -> QCompareIC | "scmpin" -> QCompareICN (nat n)
       | "eqin" -> QEqualsICN (nat n) | "sstarts" -> QStartsWith | "slen" -> QLength
       | "sfindc" -> QFindC (zi n) | "sfindlc" -> QFindLastC (zi n)
+      | "sfinds" -> QFindStr | "sfindo" -> QFindOneOfStr
       | _ -> failwith ("bad query: " ^ q)) in
     OStat (qq, nat v, nat u)
+  | ["pluseq"; v; u] -> OPlusEqS (nat v, nat u)
+  | ["pluseqc"; v; c] -> OPlusEqC (nat v, zi c)
+  | ["plus"; v; u] -> OPlus (nat v, nat u)
+  | ["pluslit"; v; h] -> OPlusLit (nat v, hx h)
+  | ["plusasg"; d; v; u] -> OPlusAssign (nat d, nat v, nat u)
+  | ["frombool"; b] -> OFromBool (b <> "0")
+  | ["fromcstr"; h] -> OFromCStr (hx h)
+  | ["fromcstrn"; h; n] -> OFromCStrN (hx h, nat n)
+  | ["tobool"; v] -> OToBool (nat v)
+  | ["char"; q; c] ->
+    let qq = (match q with
+      | "lower" -> CLower | "upper" -> CUpper | "isspace" -> CIsSpace | "isalnum" -> CIsAlnum | "isalpha" -> CIsAlpha
+      | "isdigit" -> CIsDigit | "islower" -> CIsLowerCase | "isprint" -> CIsPrint | "ispunct" -> CIsPunct
+      | "isupper" -> CIsUpperCase | "isxdigit" -> CIsHexDigit
+      | _ -> failwith ("bad char query: " ^ q)) in
+    OChar (qq, zi c)
   | _ -> failwith ("bad op: " ^ String.concat " " toks)
 
 (* a byte the model holds as indeterminate / out of range prints as the wildcard pair *)
